@@ -421,4 +421,125 @@ theorem callsRc_neg_iff : ∀ (cs : List SendCall) (total : Nat),
     | fail len b => cases b <;> simp [callsRc, SendCall.isOk]
     | ok len m chunk => simp [callsRc, SendCall.isOk, ih]
 
+/-! ## `tr_send_all` on a transport whose write calls take time (`sendAllT`) -/
+
+/-- a write call on a non-empty buffer fails (-1 / -2) or accepts between 1 byte and all of it -/
+theorem trSendT_rc (q : List SendStep) (now : Int) (bytes : List Nat) (t : Int) (hne : bytes ≠ []) :
+    (trSendT q now bytes t).1 = -1 ∨ (trSendT q now bytes t).1 = -2 ∨
+    ∃ m : Nat, (trSendT q now bytes t).1 = (m : Int) ∧ 1 ≤ m ∧ m ≤ bytes.length := by
+  have hl : 1 ≤ bytes.length := by
+    cases bytes with
+    | nil => exact absurd rfl hne
+    | cons _ _ => simp
+  unfold trSendT
+  cases q with
+  | nil => exact Or.inr (Or.inr ⟨bytes.length, rfl, hl, Nat.le_refl _⟩)
+  | cons s q =>
+    simp only
+    cases s.ev with
+    | err => exact Or.inl rfl
+    | block => exact Or.inr (Or.inl rfl)
+    | all => exact Or.inr (Or.inr ⟨bytes.length, rfl, hl, Nat.le_refl _⟩)
+    | part k =>
+      refine Or.inr (Or.inr ⟨if min k bytes.length = 0 then 1 else min k bytes.length, rfl, ?_, ?_⟩)
+      · split <;> omega
+      · split <;> omega
+
+theorem sendAllTLoop_spec (endT : Int) : ∀ (fuel : Nat) (q : List SendStep) (now : Int) (rest : List Nat) (total : Nat)
+    (handed : List Nat) (lines : List String), rest.length < fuel →
+    (0 ≤ (sendAllTLoop endT fuel q now rest total handed lines).rc →
+      (sendAllTLoop endT fuel q now rest total handed lines).handed = handed ++ rest ∧
+      (sendAllTLoop endT fuel q now rest total handed lines).rc = ((total + rest.length : Nat) : Int)) ∧
+    ((sendAllTLoop endT fuel q now rest total handed lines).rc < 0 →
+      ∃ k, k < rest.length ∧ (sendAllTLoop endT fuel q now rest total handed lines).handed = handed ++ rest.take k) := by
+  intro fuel
+  induction fuel with
+  | zero => intro q now rest total handed lines h; omega
+  | succ fuel ih =>
+    intro q now rest total handed lines hf
+    unfold sendAllTLoop
+    by_cases he : rest.isEmpty = true
+    · simp only [he, if_true]
+      have : rest = [] := List.isEmpty_iff.mp he
+      subst this
+      exact ⟨fun _ => ⟨by simp, by simp⟩, fun h => absurd h (Int.not_lt.mpr (Int.natCast_nonneg _))⟩
+    · simp only [he, Bool.false_eq_true, if_false]
+      have hne : rest ≠ [] := fun h => he (by simp [h])
+      have hrc := trSendT_rc q now rest (endT - now) hne
+      rcases hs : trSendT q now rest (endT - now) with ⟨rc, q', now', line⟩
+      rw [hs] at hrc
+      simp only at hrc ⊢
+      have hpos : 0 < rest.length := by
+        cases rest with
+        | nil => exact absurd rfl hne
+        | cons _ _ => simp
+      rcases hrc with h | h | ⟨m, hm, h1, h2⟩
+      · subst h
+        simp only [show ((-1 : Int) < 0) from by decide, if_true]
+        exact ⟨fun h => absurd h (by decide), fun _ => ⟨0, hpos, by simp⟩⟩
+      · subst h
+        simp only [show ((-2 : Int) < 0) from by decide, if_true]
+        exact ⟨fun h => absurd h (by decide), fun _ => ⟨0, hpos, by simp⟩⟩
+      · subst hm
+        have hnn : ¬ ((m : Int) < 0) := by omega
+        simp only [hnn, if_false, Int.toNat_natCast]
+        have hlen : (rest.drop m).length < fuel := by simp only [List.length_drop]; omega
+        have := ih q' now' (rest.drop m) (total + m) (handed ++ rest.take m) (lines ++ [line]) hlen
+        obtain ⟨a, b⟩ := this
+        refine ⟨fun h => ?_, fun h => ?_⟩
+        · obtain ⟨a1, a2⟩ := a h
+          refine ⟨?_, ?_⟩
+          · rw [a1, List.append_assoc, List.take_append_drop]
+          · rw [a2]; simp only [List.length_drop]; congr 1; omega
+        · obtain ⟨k, hk, e⟩ := b h
+          refine ⟨m + k, ?_, ?_⟩
+          · simp only [List.length_drop] at hk; omega
+          · rw [e, List.append_assoc]
+            congr 1
+            rw [List.take_add]
+
+
+def stepsOf (q : List SendEv) : List SendStep := q.map fun e => ⟨0, e⟩
+
+theorem trSendT_trSend (n : Net) (now : Int) (bytes : List Nat) (t : Int) :
+    (trSendT (stepsOf n.sendQ) now bytes t).1 = (trSend n bytes).1 ∧
+    (trSendT (stepsOf n.sendQ) now bytes t).2.1 = stepsOf (trSend n bytes).2.sendQ ∧
+    (trSendT (stepsOf n.sendQ) now bytes t).2.2.1 = now := by
+  unfold trSendT trSend stepsOf
+  cases h : n.sendQ with
+  | nil => simp [Net.emit, h]
+  | cons e q =>
+    cases e <;> simp [Net.emit]
+
+theorem sendAllTLoop_conservative (endT : Int) : ∀ (fuel : Nat) (n : Net) (now : Int) (rest : List Nat) (total : Nat)
+    (handed : List Nat) (lines : List String),
+    (sendAllTLoop endT fuel (stepsOf n.sendQ) now rest total handed lines).rc = (sendAllLoop fuel n rest total).1 := by
+  intro fuel
+  induction fuel with
+  | zero => intro n now rest total handed lines; rfl
+  | succ fuel ih =>
+    intro n now rest total handed lines
+    unfold sendAllTLoop sendAllLoop
+    by_cases he : rest.isEmpty = true
+    · simp only [he, if_true]
+    · simp only [he, Bool.false_eq_true, if_false]
+      have h := trSendT_trSend n now rest (endT - now)
+      rcases hs : trSendT (stepsOf n.sendQ) now rest (endT - now) with ⟨rc, q', now', line⟩
+      rcases ho : trSend n rest with ⟨rc0, n1⟩
+      rw [hs, ho] at h
+      simp only at h ⊢
+      obtain ⟨h1, h2, _⟩ := h
+      subst h1
+      by_cases hneg : rc < 0
+      · simp only [hneg, if_true]
+      · simp only [hneg, if_false]
+        rw [h2]
+        exact ih n1 now' _ _ _ _
+
+/-- **conservative extension**: when no time passes inside the write calls, the loop with the clock
+    returns what the loop of the protocol model returns -/
+theorem sendAllT_conservative (n : Net) (bytes : List Nat) (t : Int) :
+    (sendAllT (stepsOf n.sendQ) n.now bytes t).rc = (sendAll n bytes).1 :=
+  sendAllTLoop_conservative _ _ _ _ _ _ _ _
+
 end Rtr.P
